@@ -49,7 +49,7 @@ def first_block(data_locators, range_start):
         if lo == i:
             # must be out of range, fail
             return None
-        if range_start > block_start:
+        if range_start >= block_start:
             lo = i
         else:
             hi = i
